@@ -75,6 +75,10 @@ type SelResult struct {
 // false when the scheduler does not handle the call (then the real primitive is used).
 var SyncHook func(obj interface{}, op string, n int) bool
 
+// YieldHook: set by the cooperative scheduler; called by the stand-in of sync/atomic before every operation (a
+// scheduling point at which the running thread may be preempted).
+var YieldHook func()
+
 // SelectHook, RecvHook, CloseHook, GoHook: set by the cooperative scheduler.
 var SelectHook func(hasDefault bool, cases []SelCase) SelResult
 var RecvHook func(ch interface{}) (interface{}, bool)
@@ -82,7 +86,7 @@ var CloseHook func(ch interface{})
 var GoHook func(fn func())
 
 func SendCase(ch interface{}, v interface{}) SelCase { return SelCase{Send: true, Ch: ch, Val: v} }
-func RecvCase(ch interface{}) SelCase              { return SelCase{Ch: ch} }
+func RecvCase(ch interface{}) SelCase                { return SelCase{Ch: ch} }
 
 // Select performs a select statement over the given cases.
 func Select(hasDefault bool, cases ...SelCase) SelResult {
